@@ -96,7 +96,7 @@ def _frame_flow(P, f, e1, e2):
         if b is not None and g1 is not None and g1.blocks and writes_through_param(P, g1, j):
             tainted.add(b)
     if not tainted and e1.get("ty") == "void":
-        return False
+        return set()
     changed = True
     while changed:
         changed = False
@@ -130,14 +130,112 @@ def _frame_flow(P, f, e1, e2):
             if hit:
                 vals.add(i.id)
                 changed = True
-    for a in e2.args:
+    hit_args = set()
+    for j, a in enumerate(e2.args):
         if a.get("k") != "inst":
             continue
         if a["id"] in vals:
-            return True
+            hit_args.add(j)
+            continue
         b = _base_alloca(f, a)
         if b is not None and b in tainted:
+            hit_args.add(j)
+    return hit_args
+
+
+_PFS = {}
+
+
+def _derived_from_param(g, k):
+    """(value ids, allocas) derived from parameter k of g through its locals (flow-insensitive)"""
+    key = (g.name, k)
+    if key in _PFS:
+        return _PFS[key]
+    vals = set()
+    tainted = set()
+    for i in g.blocks[0].insts if g.blocks else []:
+        if i.op == "store" and i["val"].get("k") == "arg" and i["val"]["i"] == k:
+            b = _base_alloca(g, i["ptr"])
+            if b is not None:
+                tainted.add(b)
+    changed = True
+    while changed:
+        changed = False
+        for i in g.all_insts():
+            if i.id in vals:
+                continue
+            hit = False
+            if i.op == "load":
+                b = _base_alloca(g, i["ptr"])
+                hit = b in tainted
+                if not hit and i["ptr"].get("k") == "inst":
+                    # a load through a tainted pointer value (message[data_index])
+                    pi = g.insts[i["ptr"]["id"]]
+                    hit = pi.id in vals
+            elif i.op in ("zext", "sext", "trunc", "bitcast", "and", "or", "xor", "add", "sub", "shl", "lshr", "ashr", "mul", "select", "phi", "getelementptr", "icmp", "udiv", "sdiv", "urem", "srem"):
+                for kk in ("a", "b", "c", "base"):
+                    if kk in i.d and isinstance(i[kk], dict) and ((i[kk].get("k") == "inst" and i[kk]["id"] in vals) or (i[kk].get("k") == "arg" and i[kk]["i"] == k)):
+                        hit = True
+                if i.op == "getelementptr":
+                    for ix in i["idx"]:
+                        v_ = ix.get("v", {})
+                        if v_.get("k") == "inst" and v_["id"] in vals:
+                            hit = True
+                if i.op == "phi":
+                    hit = hit or any(v.get("k") == "inst" and v["id"] in vals for b_, v in i["incoming"])
+            elif i.op == "store":
+                if (i["val"].get("k") == "inst" and i["val"]["id"] in vals) or (i["val"].get("k") == "arg" and i["val"]["i"] == k):
+                    b = _base_alloca(g, i["ptr"])
+                    if b is not None and b not in tainted:
+                        tainted.add(b)
+                        changed = True
+                continue
+            elif i.op == "call" and i.callee and i.callee.startswith("llvm.memcpy"):
+                s_ = _base_alloca(g, i.args[1]) if i.args[1].get("k") == "inst" else None
+                d_ = _base_alloca(g, i.args[0]) if i.args[0].get("k") == "inst" else None
+                if (s_ in tainted or (i.args[1].get("k") == "arg" and i.args[1]["i"] == k)) and d_ is not None and d_ not in tainted:
+                    tainted.add(d_)
+                    changed = True
+                continue
+            if hit:
+                vals.add(i.id)
+                changed = True
+    _PFS[key] = (vals, tainted)
+    return vals, tainted
+
+
+def param_flows_to_store(P, g, k, fn2, st, depth=0, seen=None):
+    """does parameter k of g flow - through g's locals and, by argument position, through the repo functions it calls - into the value stored by
+    instruction st of function fn2?"""
+    seen = set() if seen is None else seen
+    if (g.name, k) in seen or depth > 5 or not g.blocks:
+        return depth > 5
+    seen.add((g.name, k))
+    vals, tainted = _derived_from_param(g, k)
+    if g is fn2 or g.name == fn2.name:
+        v = st["val"]
+        if (v.get("k") == "inst" and v["id"] in vals) or (v.get("k") == "arg" and v["i"] == k):
             return True
+        if v.get("k") == "inst":
+            b = _base_alloca(g, v)
+            if b is not None and b in tainted:
+                return True
+    for c in g.calls():
+        h = P.functions.get(c.callee or "")
+        if h is None or not h.blocks:
+            continue
+        for j, a in enumerate(c.args):
+            dep = False
+            if a.get("k") == "arg" and a["i"] == k:
+                dep = True
+            elif a.get("k") == "inst":
+                if a["id"] in vals:
+                    dep = True
+                else:
+                    b = _base_alloca(g, a)
+                    dep = b is not None and b in tainted
+            if dep and param_flows_to_store(P, h, j, fn2, st, depth + 1, seen):
+                return True
     return False
 
 
@@ -217,8 +315,15 @@ def split_rmw(db):
                 if not rules.exists_path(f, i1, lambda x, i2=i2: x.id == i2.id, None):
                     continue
                 stats["read_write_pairs"] += 1
-                if not _frame_flow(db.w.P, f, i1, i2):
+                hit_args = _frame_flow(db.w.P, f, i1, i2)
+                if not hit_args:
                     continue
+                # the value must reach the store itself: follow the tainted argument positions down to the storing function
+                g2 = db.w.P.functions.get(i2.callee or "")
+                if g2 is not None and g2.blocks:
+                    cand = [a2 for a2 in cand if any(param_flows_to_store(db.w.P, g2, j, a2.fn, a2.inst) for j in hit_args)]
+                    if not cand:
+                        continue
                 stats["with_value_flow"] += 1
                 for a2 in cand:
                     lock, _src = db.lock_of(a2.region)
